@@ -57,6 +57,13 @@ def configs(tier):
                     out.append(dict(op=op, rhs=rhs, dta=dta, dtb=("int64" if rhs == "int" else "float64"), sa=[2],
                                     sb=([] if rhs in ("int", "float") else [2]), ua=ua,
                                     ub=(ub if rhs == "Quantity" else "dimensionless")))
+    # boolean operands (True, a boolean ndarray, a mask Array) are dimensionless numbers: against a dimensional Array they
+    # must be refused like any other dimensionless operand, against a dimensionless one compared as 0 / 1
+    for op in CMP:
+        for rhs in ("bool", "bool-ndarray", "mask"):
+            for ua in ("m", "dimensionless", "percent"):
+                out.append(dict(op=op, rhs=rhs, dta="float64", dtb="bool", sa=[2], sb=([] if rhs == "bool" else [2]), ua=ua, ub="dimensionless"))
+        out.append(dict(op=op, rhs="Array", dta="bool", dtb="float64", sa=[2], sb=[2], ua="dimensionless", ub="m", lhs_mask=True))
     # histories: an earlier operation on the same operands, then an in-place change of one of them, then the comparison
     # (hidden state in the operands -- e.g. a remembered conversion -- must not be observable)
     for op in (("lt", "eq", "ge") if tier == "quick" else tuple(CMP)):
@@ -107,14 +114,26 @@ def body(m, cfg):
         return _logical(m, cfg, op, sa, sb)
     dta, dtb, rhs = cfg["dta"], cfg["dtb"], cfg["rhs"]
     m.dtype_tol(dta, dtb)
-    tag = f"{op}:{C.DT_SHORT[dta]}:{rhs}:{C.DT_SHORT[dtb]}"
-    a = Array(m.array("a", sa, dta), unit=cfg["ua"])
+    tag = f"{op}:{C.DT_SHORT.get(dta, dta)}:{rhs}:{C.DT_SHORT.get(dtb, dtb)}"
+    if cfg.get("lhs_mask"):
+        a = Array(np.array([True, False]))            # a mask on the left, a dimensional Array on the right
+    else:
+        a = Array(m.array("a", sa, dta), unit=cfg["ua"])
     fa, da = C.fd(cfg["ua"])
     fb, db = C.fd(cfg["ub"])
     av = m.vals(a._array)
     if rhs == "Array":
         b = Array(m.array("b", sb, dtb), unit=cfg["ub"])
         bv = m.vals(b._array)
+    elif rhs == "bool":
+        b = True
+        bv = [m.t(1.0)]
+    elif rhs == "bool-ndarray":
+        b = np.array([True, False])
+        bv = [m.t(1.0), m.t(0.0)]
+    elif rhs == "mask":
+        b = Array(np.array([True, False]))
+        bv = [m.t(1.0), m.t(0.0)]
     elif rhs in ("int", "float"):
         b = m.number("b_0", dtb)
         bv = [m.t(b)]
